@@ -31,7 +31,8 @@ def make_ctx(tier):
 
 def run(ctx, tier):
     for r, t in (("Q1", "sort is stable"), ("Q2", "comparator decoders are mirror images"),
-                 ("Q3", "serializer and parser byte tables agree"), ("Q4", "C wrappers delegate by name")):
+                 ("Q3", "serializer and parser byte tables agree"), ("Q4", "C wrappers delegate by name"),
+                 ("Q5", "form-urlencoded decoder: a byte is copied verbatim only after it was tested not to be '+', and ' ' is written only for '+'")):
         ctx.rule(r, t)
     cfgs = C.configs_for(tier, thorough=["release", "devchecks", "amalgamated", "nopattern"])
     fxs = C.load_configs(ctx, cfgs)
@@ -40,7 +41,61 @@ def run(ctx, tier):
         check(ctx, fxs[name])
 
 
+def check_decoder_copies(ctx, fx):
+    """Q5.  In form_urlencoded_decode every single-byte store to the output either writes the constant ' ' where the
+    byte at the cursor is known to be '+', or copies the byte at the cursor where a dominating test (on the cursor as it
+    stands) tells which byte it is or that it is not '+'.  A byte copied without such a test may be a '+', which the
+    application/x-www-form-urlencoded parser must turn into a space."""
+    from lib.condflow import CondFlow, closure
+    f = fx.fn1("ada::unicode::form_urlencoded_decode")
+    cf = CondFlow(f)
+    n = 0
+    for b in f["blocks"]:
+        for i, st in enumerate(b["stmts"]):
+            for nd in X.stmt_nodes(st, local=True):
+                if nd.get("k") != "assign" or nd.get("op") != "=":
+                    continue
+                l0 = X.strip(nd["lhs"])
+                if not (isinstance(l0, dict) and l0.get("k") == "un" and l0.get("op") == "*"):
+                    continue
+                fs = cf.facts_before(b["id"], i)
+                if fs is None:
+                    continue
+                fs = closure(fs)
+                r0 = X.strip(nd["rhs"])
+                where = (st.get("loc") or "").replace("/repo/", "")
+                v = X.const_val(r0)
+                # which cursor byte do the facts talk about: `*p` or a local copy `c` of it
+                # a local copy `c` of the cursor byte counts only while `c == *p` is still known (the cursor has not moved)
+                names = {"+*p"}
+                for (op, ts, c) in fs:
+                    if op == "eq" and c == 0 and len(ts) == 2 and "-*p" in ts:
+                        names.add([t for t in ts if t != "-*p"][0])
+                known_eq = {-c for (op, ts, c) in fs if op == "eq" and len(ts) == 1 and ts[0] in names}
+                known_ne = {-c for (op, ts, c) in fs if op == "ne" and len(ts) == 1 and ts[0] in names}
+                if v is not None:
+                    if v == 32:
+                        n += 1
+                        ctx.check("Q5", "form_urlencoded_decode: `%s`" % st.get("text", "").strip()[:40], 43 in known_eq,
+                                  "written where the cursor byte is '+'",
+                                  "a space is written where the byte at the cursor is not known to be '+'", where=where)
+                    continue
+                reads_cursor = any(x.get("k") == "un" and x.get("op") == "*" and X.path(x["e"]) and X.path(x["e"]).endswith(":p")
+                                   for x in X.walk(r0)) or any(x.get("k") == "un" and x.get("op") in ("++",) for x in X.walk(r0))
+                if not reads_cursor:
+                    continue        # a decoded value ((hi << 4) | lo)
+                n += 1
+                ok = any(k != 43 for k in known_eq) or 43 in known_ne
+                ctx.check("Q5", "form_urlencoded_decode: `%s`" % st.get("text", "").strip()[:40], ok,
+                          "the copied byte was tested (%s)" % ("== %s" % sorted(known_eq) if known_eq else "!= '+'"),
+                          "the byte at the cursor is copied verbatim although no dominating test (on the cursor as it stands) tells "
+                          "that it is not '+': a '+' reaching this statement stays a '+' instead of becoming a space",
+                          where=where)
+    ctx.floor("Q5", n, 2, "single-byte stores of the decoder")
+
+
 def check(ctx, fx):
+    check_decoder_copies(ctx, fx)
     # ---- Q1 ----
     f = fx.fn1("ada::url_search_params::sort")
     sorts = [n for n, s, b in C.all_nodes(f) if n.get("k") == "call" and "sort" in (n.get("qname") or n.get("callee") or "")]
